@@ -121,6 +121,11 @@ func namedSpecs() []spec.Spec {
 			{Op: "AllowStyles", Names: []string{"font-family"}, Re: `^[a-z ,]*$`, Scope: "on", On: []string{"span"}},
 			{Op: "AllowStyles", Names: []string{"width"}, Enum: []string{"1px", "2px"}, Scope: "matching", OnRe: `^(p|my-[a-z]+)$`},
 		}},
+		{Name: "iframe-attrs-only", Base: "new", Calls: []C{
+			attrsOn([]string{"name", "title"}, "", "iframe", "textarea", "xmp", "title", "noscript"),
+			els("p"),
+			{Op: "AllowElementsContent", Names: []string{"iframe", "title", "noscript"}},
+		}},
 		{Name: "everything-named", Base: "new", Calls: []C{
 			{Op: "AllowElementsMatching", Re: `^[a-z0-9-]+$`},
 			attrsGlob([]string{"id", "class", "title", "href", "src", "name"}, ""),
